@@ -1806,3 +1806,40 @@ def rule_namespace_path_lookup(ctx, rep: Report, rid="V6"):
             f"early exits inside the candidate loop: {len(early)}, first-element picks: {len(picks_first)}, recursion per candidate: {in_loop_or_comp} - "
             f"with `namespace gtsam {{..}} namespace gtsam {{ template<T> class F{{}}; }}` only the first block is searched and a legal typedef "
             f"of gtsam::F is rejected ('Cannot find class')", loc)
+
+
+def rule_directory_creation_tolerates_races(ctx, rep: Report, rid="R9", min_sites=2):
+    """Several wrapper processes may create the same output folder at the same time (one build directory, parallel
+    targets): every directory creation reachable from the entry points either passes `exist_ok=True` or sits in a
+    `try` whose handler accepts OSError / FileExistsError.  A preceding `isdir` test does not help - the folder can
+    appear between the test and the creation."""
+    eff = effects_engine(ctx)
+    prog = ctx.prog
+    n = 0
+    ordinal: Dict[str, int] = {}
+    for mi in sorted(prog.modules.values(), key=lambda m: m.rel):
+        if not mi.rel.startswith(("gtwrap/", "scripts/")):
+            continue
+        for c in ast.walk(mi.tree):
+            if not (isinstance(c, ast.Call) and isinstance(c.func, ast.Attribute) and c.func.attr in ("mkdir", "makedirs")):
+                continue
+            n += 1
+            exist_ok = any(k.arg == "exist_ok" and isinstance(k.value, ast.Constant) and k.value.value is True for k in c.keywords)
+            handled = False
+            p_ = parent(c)
+            child = c
+            while p_ is not None:
+                if isinstance(p_, ast.Try) and child in p_.body:
+                    for h in p_.handlers:
+                        names = [] if h.type is None else ([unparse(e) for e in h.type.elts] if isinstance(h.type, ast.Tuple) else [unparse(h.type)])
+                        if h.type is None or any(nm.split(".")[-1] in ("OSError", "FileExistsError", "EnvironmentError", "IOError", "Exception") for nm in names):
+                            handled = True
+                child, p_ = p_, parent(p_)
+            fn = enclosing(c, ast.FunctionDef)
+            ordinal[fn.name if fn else "<module>"] = ordinal.get(fn.name if fn else "<module>", 0) + 1
+            rep.add(rid, f"mkdir:{fn.name if fn else '<module>'}:#{ordinal[fn.name if fn else '<module>']}", exist_ok or handled,
+                    f"`{unparse(c)[:70]}` fails with FileExistsError when another wrapper process creates the folder between the existence test "
+                    f"and this call (no exist_ok=True, no handler for OSError): parallel targets in one build directory kill each other",
+                    f"{mi.rel}:{c.lineno}")
+    if n < min_sites:
+        raise AnalysisError(f"{rep.prop}/{rid}: only {n} directory creations found ({min_sites} expected)")
